@@ -74,6 +74,9 @@ CHECKS = {
     "C15": dict(level="model_checking", ref="7/C15", technique="TLA+ model of parser + reassembler (as used) + call-back (ReasmCore/ReasmGen.tla) checked by TLC over all event shapes x record interleavings x faults; every scenario realised through the real Auditd.Read and judged by TLC (ReasmTrace.tla)",
                 text="TLC enumerates kernel events of four shapes, every interleaving of their records that preserves per-event order, and one fault (malformed line at any position, failing write at the k-th event, invalid login or LOGIN record with unparsable pid at any point) and checks grouping / at-most-once / nothing-silently-skipped on the model. Each scenario is fed line by line (with barriers) to the real Auditd.Read; the events at the encoder (grouping by EXECVE arguments), Read's return value and whether the error names the offending line are validated by TLC.",
                 note="Trusted: TLC; harness/cmd/reasm's barrier technique (empty line after each record) and error classification by message; go-libaudit's time-out/overflow paths are not modelled."),
+    "C10": dict(level="model_checking", ref="7/C10", technique="TLA+ specs (SshdProc.tla: event written before the login exists; Pipeline.tla) checked by TLC; TLC-simulated multi-session histories fed concurrently to the built daemon through both FIFOs under strace; the output file and the write(2) calls validated by TLC (TrackerTrace.tla: CausalOrder, WholeLines, LoginLinesOnce, ExactlyOnce, Identity, Silence)",
+                text="Design: TLC proves the hand-off never precedes the event write (all scripts/interleavings). Implementation: histories with up to six concurrent sessions (TLC -simulate) are turned into sshd and audit lines and written in concurrent bursts to the real FIFOs of the built binary; strace shows every event is exactly one write(2) of exactly one line; TLC checks on the file's line sequence that each UserLogin precedes every UserAction with its identity, no login line is missing or doubled, and per session the required events appear exactly once in order with the right identity.",
+                note="Trusted: TLC; Linux atomicity of one write(2) on an O_APPEND file; strace's view of the writes; the L3 projection in harness/cmd/l3. Schedules are whatever the OS produces (not controlled) over seeded input scripts."),
 }
 
 ALL = ["C%02d" % i for i in range(1, 21)]
